@@ -164,6 +164,7 @@ class SLock:
                 return False
             raise RuntimeError('SLock: would block outside the scheduler')
         run, tid = ctx
+        run.loc[tid] = 'lock'
         run._yield(tid)                                   # a pre-emption can fall right before the acquisition
         if once:
             if self.owner is None:
@@ -248,6 +249,9 @@ class RunResult:
         self.steps = 0
         self.trace = []                  # [(tid, consecutive steps)]
         self.choices = []                # per step (tid chosen, runnable tids)
+        self.where = []                  # per step: where the PREVIOUSLY running worker is paused (code object of the library
+                                         # frame whose next bytecode is pending | 'lock' | 'explicit' | None): the point a
+                                         # pre-emption at this step falls on
         self.events = []                 # ('acq'|'rel'|'park'|'tryfail', tid, lockid) in order
         self.parked = [None] * n         # at the end of the run: id of the lock each worker is parked on (deadlock report)
 
@@ -274,7 +278,7 @@ class _Run:
     the run is over the holder releases `back`, on which the thread that called Engine.run is waiting.  The decisions are
     exactly those of a central loop `pick tid -> sem[tid].release(); back.acquire()`, at a fraction of the cost.
     """
-    __slots__ = ('sems', 'back', 'waiting', 'events', 'res', 'n', 'policy', 'max_steps', 'current', 'rle', 'over', 'error')
+    __slots__ = ('sems', 'back', 'waiting', 'events', 'res', 'n', 'policy', 'max_steps', 'current', 'rle', 'over', 'error', 'loc')
 
     def __init__(self, n, policy, max_steps):
         self.n = n
@@ -286,6 +290,7 @@ class _Run:
         self.back = _alloc()
         self.back.acquire()
         self.waiting = [None] * n
+        self.loc = [None] * n             # where each worker is paused: code object | 'lock' | 'explicit' | None (not started)
         self.res = RunResult(n)
         self.events = self.res.events
         self.current = None
@@ -315,6 +320,7 @@ class _Run:
             if tid not in runnable:
                 raise ValueError('sched: policy chose %r, runnable %r (step %d)' % (tid, runnable, res.steps))
             res.choices.append((tid, runnable))
+            res.where.append(None if self.current is None else self.loc[self.current])
             rle = self.rle
             if rle and rle[-1][0] == tid:
                 rle[-1][1] += 1
@@ -355,8 +361,11 @@ def _worker_main(run, tid, thunk):
     _tls.ctx = (run, tid)
     yield_ = run._yield
 
+    loc = run.loc
+
     def local(frame, event, arg):
         if event == 'opcode':
+            loc[tid] = frame.f_code
             yield_(tid)
         return local
 
@@ -427,6 +436,7 @@ class Engine:
         """Explicit scheduling point for harness code running inside a worker; no-op anywhere else."""
         ctx = getattr(_tls, 'ctx', None)
         if ctx is not None:
+            ctx[0].loc[ctx[1]] = 'explicit'
             ctx[0]._yield(ctx[1])
 
     @staticmethod
@@ -523,7 +533,8 @@ class Exploration:
                           pre-emption could not be applied - must stay empty if world + engine are deterministic
     """
 
-    def __init__(self, run_once, nthreads, bound, budget_s=None, max_runs=None, free_switches=False):
+    def __init__(self, run_once, nthreads, bound, budget_s=None, max_runs=None, free_switches=False, point_filter=None):
+        self.point_filter = point_filter
         self.run_once, self.nthreads, self.bound = run_once, nthreads, bound
         self.budget_s, self.max_runs, self.free_switches = budget_s, max_runs, free_switches
         self.runs = 0
@@ -588,6 +599,9 @@ class Exploration:
                         prev = ch[s - 1][0] if s > 0 else None
                         genuine = prev is not None and prev in runnable
                         if genuine:
+                            if self.point_filter is not None and not self.point_filter(res.where[s]):
+                                continue          # the pending bytecode is thread-local work: pre-empting here is equivalent
+                                                  # to pre-empting at the thread's next relevant point
                             lvl = level + 1
                         elif self.free_switches:
                             lvl = level
@@ -615,7 +629,7 @@ def _prefix_hashes(choices, upto):
     return out
 
 
-def explore(run_once, nthreads, bound, budget_s=None, max_runs=None, free_switches=False):
+def explore(run_once, nthreads, bound, budget_s=None, max_runs=None, free_switches=False, point_filter=None):
     """Iterate over ALL schedules with at most `bound` pre-emptions (iterative context bounding, breadth first in the number
     of pre-emptions).  run_once(policy) -> RunResult must build a FRESH world and run it under the given policy.
 
@@ -625,10 +639,12 @@ def explore(run_once, nthreads, bound, budget_s=None, max_runs=None, free_switch
     free_switches=True additionally explores, at no cost against the bound, the other choices at points where the previous
     worker could NOT continue (finished / parked / step 0) - the default always takes the lowest tid there.
 
+    point_filter(where) -> bool restricts genuine pre-emptions to steps whose RunResult.where entry passes the filter.
+
     Returns an Exploration (iterator of (preemption_list, RunResult)); early stop is reported by its .complete == False and
     .stop_reason - see class Exploration.
     """
-    return Exploration(run_once, nthreads, bound, budget_s, max_runs, free_switches)
+    return Exploration(run_once, nthreads, bound, budget_s, max_runs, free_switches, point_filter)
 
 
 # ----------------------------------------------------------------------------------------------- self-test
